@@ -10,33 +10,7 @@
 (* result of a fresh forward scan that consumes k slots.  This is the      *)
 (* statement of property C11; it is also the position oracle of C12.       *)
 (***************************************************************************)
-EXTENDS Integers, Sequences
-
-EOFCH == -1
-LF    == 10
-CR    == 13
-
-CharAt(s, i) == IF i < 1 \/ i > Len(s) THEN EOFCH ELSE s[i]
-
-\* A character starts a new line: LF always, CR unless it is adjacent to an LF
-\* (so CRLF and LFCR count once, through their LF).
-IsLine(b, c, a) == (c = LF \/ c = CR) /\ ~(c = CR /\ (b = LF \/ a = LF))
-\* A character occupies a column unless it is CR or LF.
-IsCol(c) == c # LF /\ c # CR
-
-\* <<line, column>> after consuming k slots in a forward scan.
-RECURSIVE LC(_, _)
-LC(s, k) ==
-  IF k = 0 THEN <<1, 0>>
-  ELSE LET p == LC(s, k - 1)
-           c == CharAt(s, k)
-       IN IF k > Len(s) THEN p          \* the end-of-input slot changes nothing
-          ELSE LET q == IF IsLine(CharAt(s, k-1), c, CharAt(s, k+1))
-                        THEN <<p[1] + 1, 0>> ELSE p
-               IN IF IsCol(c) THEN <<q[1], q[2] + 1>> ELSE q
-
-Min(a, b) == IF a < b THEN a ELSE b
-Max(a, b) == IF a > b THEN a ELSE b
+EXTENDS ScanLC
 
 VARIABLES content, k
 svars == <<content, k>>
